@@ -165,5 +165,9 @@ def run(ctx):
     rep.floor('zero-hash rule', nz, 1)
     nsq = feeding_shape(rep, ctx.facts('default', 'rel'))
     rep.floor('hash feeding-shape rule', nsq, 1)
+    from rules import limbmod
+    _Fl = ctx.facts('default', 'rel')
+    nlm = limbmod.check(rep, _Fl, [f.name for f in _Fl.real_fns()])
+    rep.floor('functions reading big-integer limbs', nlm, 1)
     rep.assume('|scale| <= 10^5 (the property bounds scales because the hash materialises zeros)')
     rep.trust(common.TRUST_STD)
